@@ -15,6 +15,7 @@ import NV.C16.ProofObject
 import NV.C16.Tree
 import NV.C16.ProofTree
 import NV.C16.ProofHash
+import NV.C16.Globals
 
 namespace NV.C16.Props
 
@@ -338,6 +339,29 @@ variable cursor, and the writing run follows the header -/
 theorem nesting_and_dry_run_sites_as_modelled :
     NV.Gen.C16.nestingSitesAsModelled = true ∧ NV.Gen.C16.restoreSizeNestingArg = 1 + 1 ∧
     NV.Gen.C16.dryRunSitesAsModelled = true := by decide
+
+/-! ### state shared between calls (Globals.lean) -/
+
+/-- **No entry point of the restore sees the shared state it is entered with.**  Whatever an earlier save or restore
+that ended in an LPC error left in `save_svalue_depth` and `save_svalue_sizes` (`g` arbitrary), restore_svalue /
+safe_restore_svalue — hence restore_variable and restore_object with either flag — yield what they yield on a fresh
+driver.  (`restoreTextFrom` is the code without its first statement: `Witness.stale_counter_without_reset`.) -/
+theorem restore_ignores_stale_state (F : FloatOps α) (mb : MbLen) (g : G) (t : List Nat) :
+    restoreSvalueG F mb g t = restoreSvalue F mb t := NV.C16.restore_ignores_stale_state F mb g t
+
+/-- ... nor does any entry point of the save (save_variable, every variable of save_object) -/
+theorem save_ignores_stale_state (F : FloatOps α) (g : G) (v : Value α) : saveSizeG F g v = saveSize F 0 v :=
+  NV.C16.save_ignores_stale_state F g v
+
+/-- the reset `save_svalue_depth = 0` IS the first statement of restore_svalue and of safe_restore_svalue, every
+top-level dispatch to restore_array / restore_mapping / restore_class sits in one of the two, every outer call of
+svalue_save_size is directly preceded by the reset (REGENERATED); and the file-scope variables the save / restore code
+shares between calls are exactly the three `G` abstracts (`nm` on the objects of this build; a new one the code
+mentions breaks the tie `file-scope-state/<name>`) -/
+theorem reset_sites_as_modelled :
+    NV.Gen.C16.resetSitesAsModelled = true ∧
+    ((NV.Gen.C16.fileScopeState.filter (fun x => x.2.2 == "protocol")).map (fun x => x.2.1)) =
+      ["save_max_depth", "save_svalue_depth", "save_svalue_sizes"] := by decide
 
 /-! ### what the restore functions dispatch on -/
 
